@@ -337,8 +337,9 @@ class SplineGeometry(Geometry):
             return False
         if self.rational != other.rational:
             return False
-        # Comparison tolerance: two numbers are the same if they agree to "precision" decimal places
-        tol = 10 ** (-self._precision)
+        # Comparison tolerance: two numbers are the same if they agree to "precision" decimal places; the coarser of the
+        # two objects' precisions decides, so that a == b and b == a always agree
+        tol = 10 ** (-min(self._precision, getattr(other, '_precision', self._precision)))
         try:
             for s, o in zip(self._control_points_size, other._control_points_size):
                 if s != o:
